@@ -290,6 +290,16 @@ def rewrite_loops(body, log, fname, slice_map=None):
                 log.append('R7 %s: `%s` (contains continue)' % (fname, hn))
                 changed = True
                 break
+            # R10a: for s in A..=Bu8  (inclusive range of a u8 counter, B < 255)
+            m = re.match(r'for (\w+) in (\d+)\.\.=(\d+)u8$', hn)
+            if m and int(m.group(3)) < 255:
+                i_, a_, b_ = m.groups()
+                inner2 = add_increment_before_continue(inner, '%s += 1;' % i_)
+                new = ('let mut %s: u8 = %s;\n while %s <= %s /*@LOOPHEAD*/ {\n%s\n %s += 1;\n }' % (i_, a_, i_, b_, close_stmt(inner2), i_))
+                body = body[:kpos] + new + body[cpos + 1:]
+                log.append('R10a %s: `%s`' % (fname, hn))
+                changed = True
+                break
             # R3: for _ in a..b
             m = re.match(r'for _ in (.+)$', hn)
             if m:
@@ -369,7 +379,10 @@ def add_increment_before_continue(inner, inc):
     m = mask_noncode(inner)
     out = []
     last = 0
+    nested = [(b, c) for (_, b, c) in find_loops(inner, m)]     # a `continue` inside a nested loop belongs to that loop
     for mm in re.finditer(r'\bcontinue\b\s*;?', m):
+        if any(b < mm.start() < c for (b, c) in nested):
+            continue
         out.append(inner[last:mm.start()])
         out.append('{ %s continue; }' % inc)
         last = mm.end()
